@@ -291,7 +291,9 @@ def every_terminator(ctx, q, mf, ms, registry, fields, nid, pre, rp):
         fn = mf.parse_item(line)
         for sel in ((None, None), (0, None), (0, 0)):
             eng = sym.Engine([mf, ms], registry, models=MODELS + bsweep.EXTRA_MODELS, eager=True, loop_bound=4)
-            for args in bsweep.signature_args(eng, fn, max_combos=2 if ctx.tier == "quick" else 6):
+            # every insertion point alternative (End / Begin / FromBegin(0) / FromEnd(0)) for the insert_ flavours
+            has_ip = any(ty.strip().endswith("InsertPoint") for _, ty in fn.args[1:])
+            for args in bsweep.signature_args(eng, fn, max_combos=4 if has_ip else (1 if ctx.tier == "quick" else 4), vary="InsertPoint" if has_ip else None):
                 b0 = make_state((1, 1, 0, 1), sel[0], sel[1], nid, fields)
                 tag = "terminator/%s/sel=%s,%s" % (name, sel[0], sel[1])
                 try:
@@ -328,7 +330,11 @@ def every_terminator(ctx, q, mf, ms, registry, fields, nid, pre, rp):
                     ctx.ob(tag, True)
                     continue
                 state = 0 if sel == (None, None) else (1 if sel == (0, None) else 2)
-                real = rp.ask("builder_call %s %d" % (name, state))
+                ipn = 0
+                for a_ in args:
+                    if isinstance(a_, sym.Adt) and a_.ty.endswith("InsertPoint"):
+                        ipn = {"End": 0, "Begin": 1, "FromBegin": 2, "FromEnd": 3}[a_.variant]
+                real = rp.ask("builder_call %s %d %d" % (name, state, ipn))
                 res_s = str(real.get("result", ""))
                 native_ok = res_s.startswith("Ok")
                 confirmed = "panic" in real or (bad[0].startswith("accepts") and native_ok) or (bad[0].startswith("rejects") and not native_ok) or \
@@ -336,7 +342,7 @@ def every_terminator(ctx, q, mf, ms, registry, fields, nid, pre, rp):
                 if confirmed:
                     ctx.ob(tag, False, "%s; native: %s" % (bad[1], str(real)[:200]))
                     ctx.violation("builder/%s/%s" % (name, bad[0]), "Builder::%s from selection %s: %s; on the compiled crate: %s" % (name, sel, bad[1], str(real)[:300]),
-                                  {"cmd": "builder_call %s %d" % (name, state), "real": real})
+                                  {"cmd": "builder_call %s %d %d" % (name, state, ipn), "real": real})
                     return
                 ctx.ob(tag, None, "model reports '%s' but the compiled crate does not show it: %s" % (bad[1], str(real)[:200]))
     ctx.extra["terminator_methods_runs"] = n
